@@ -64,6 +64,15 @@ void harness(void) {
 	VF_NONDET(size_t, rp_round);
 	r_buf_rpos_t rp = { .iov_index = rp_index, .iov_off = rp_off, .round_num = rp_round };
 	VF_ASSUME(vf_rb_rpos_wf(r, &rp));
+#ifdef VF_RB_CASE_ROUND	/* case split over the cursor's round: 0 same, 1 previous, 2 any other */
+	VF_ASSUME(VF_RB_CASE_ROUND == 0 ? (rp.round_num == r->round_num) :
+	    VF_RB_CASE_ROUND == 1 ? ((size_t)(rp.round_num + 1) == r->round_num) :
+	    (rp.round_num != r->round_num && (size_t)(rp.round_num + 1) != r->round_num &&
+	     /* stated bound of the size * rounds product: at most 4 rounds behind, or ahead of
+	      * the writer (a 64 x 64 bit multiplier equivalence does not close otherwise) */
+	     ((size_t)(r->round_num - rp.round_num) <= 4 ||
+	      (size_t)(r->round_num - rp.round_num) > (((size_t)~0) >> 1))));
+#endif
 	const r_buf_rpos_t rp0 = rp;
 	VF_NONDET(uint8_t, drop_null);
 	VF_NONDET(size_t, drop_init);
